@@ -201,7 +201,7 @@ def checkTargets (nSteps : Nat) (g : Goal) : Option Err :=
 /-- stable insertion into a priority-sorted list (`sorted(goals, key=priority)`) -/
 def insertByPriority (g : Goal) : List Goal → List Goal
   | [] => [g]
-  | h :: t => if g.priority < h.priority then g :: h :: t else h :: insertByPriority g t
+  | h :: t => if g.priority ≤ h.priority then g :: h :: t else h :: insertByPriority g t
 
 def sortByPriority : List Goal → List Goal
   | [] => []
